@@ -1,4 +1,78 @@
-//! Per-party-thread probe/tap slots (filled when polytune is built with the `__verif` feature).
+//! Per-party-thread probe/tap slot (polytune feature `__verif`).  One party per thread, so the slot
+//! identifies the party.  An honest party without taps executes unmodified code; probes only read.
 
-pub fn party_thread_start(_p: usize) {}
-pub fn party_thread_end(_p: usize) {}
+use std::collections::HashMap;
+use std::sync::{Arc, Mutex};
+
+use polytune::verif::{Hook, set_hook};
+
+use crate::exec::Net;
+
+#[derive(Clone, Debug, PartialEq)]
+pub enum ProbeVal {
+    U128s(Vec<u128>),
+    Usizes(Vec<usize>),
+    Bytes(Vec<u8>),
+    Bools(Vec<bool>),
+    BoolVecs(Vec<Vec<bool>>),
+}
+
+#[derive(Clone, Debug)]
+pub struct ProbeRec {
+    pub party: usize,
+    pub name: String,
+    /// occurrence index of this name on this party
+    pub occ: usize,
+    pub val: ProbeVal,
+    pub t: u64,
+}
+
+pub type TapFn = Arc<dyn Fn(&mut Hook<'_>) + Send + Sync>;
+
+#[derive(Clone)]
+pub struct TapSpec {
+    pub party: usize,
+    pub name: String,
+    /// occurrence of `name` on that party (None = every occurrence)
+    pub occ: Option<usize>,
+    pub f: TapFn,
+}
+
+fn snapshot(h: &Hook<'_>) -> ProbeVal {
+    match h {
+        Hook::U128s(v) => ProbeVal::U128s(v.to_vec()),
+        Hook::Usizes(v) => ProbeVal::Usizes(v.to_vec()),
+        Hook::Bytes(v) => ProbeVal::Bytes(v.to_vec()),
+        Hook::Bools(v) => ProbeVal::Bools(v.to_vec()),
+        Hook::BoolVecs(v) => ProbeVal::BoolVecs(v.to_vec()),
+    }
+}
+
+pub fn party_thread_start(p: usize, net: Arc<Mutex<Net>>, taps: Vec<TapSpec>, record: bool) {
+    if !record && taps.is_empty() {
+        return;
+    }
+    let mut occ: HashMap<String, usize> = HashMap::new();
+    set_hook(Some(Box::new(move |name: &str, mut h: Hook<'_>| {
+        let o = {
+            let c = occ.entry(name.to_string()).or_insert(0);
+            let o = *c;
+            *c += 1;
+            o
+        };
+        for t in taps.iter().filter(|t| t.party == p && t.name == name && t.occ.is_none_or(|x| x == o)) {
+            (t.f)(&mut h);
+        }
+        if record {
+            let val = snapshot(&h);
+            if let Ok(mut n) = net.lock() {
+                let t = n.t;
+                n.probes.push(ProbeRec { party: p, name: name.to_string(), occ: o, val, t });
+            }
+        }
+    })));
+}
+
+pub fn party_thread_end(_p: usize) {
+    set_hook(None);
+}
